@@ -68,6 +68,81 @@ pub mod unit_core {
     //@| proof { h = h.push(*chain); }
     //@end
 
+    // ---- C10: progress mode returns the same draws ----------------------------------------------
+    /// stand-ins for std::time / mpsc / the statistics tracker: the channel may fail arbitrarily, the clock is arbitrary
+    #[verifier::external_body]
+    pub struct Instant { _p: u8 }
+    #[verifier::external_body]
+    pub struct Duration { _p: u8 }
+    impl Instant { #[verifier::external_body] pub fn now() -> Instant { unimplemented!() } }
+    impl Duration { #[verifier::external_body] pub fn from_secs(s: u64) -> Duration { unimplemented!() } }
+    impl Clone for Instant { #[verifier::external_body] fn clone(&self) -> Instant { unimplemented!() } }
+    impl Copy for Instant {}
+    impl Clone for Duration { #[verifier::external_body] fn clone(&self) -> Duration { unimplemented!() } }
+    impl Copy for Duration {}
+    impl core::ops::Add<Duration> for Instant { type Output = Instant; #[verifier::external_body] fn add(self, d: Duration) -> Instant { unimplemented!() } }
+    impl vstd::std_specs::ops::AddSpecImpl<Duration> for Instant {
+        open spec fn obeys_add_spec() -> bool { false }
+        open spec fn add_req(self, d: Duration) -> bool { true }
+        uninterp spec fn add_spec(self, d: Duration) -> Instant;
+    }
+    impl PartialEq for Instant { #[verifier::external_body] fn eq(&self, o: &Instant) -> bool { unimplemented!() } }
+    impl PartialOrd for Instant { #[verifier::external_body] fn partial_cmp(&self, o: &Instant) -> Option<core::cmp::Ordering> { unimplemented!() } }
+    pub struct SendError;
+    #[verifier::external_body]
+    pub struct ChainStats { _p: u8 }
+    #[verifier::external_body]
+    #[verifier::accept_recursive_types(X)]
+    pub struct Sender<X> { _p: core::marker::PhantomData<X> }
+    impl<X> Sender<X> {
+        /// `send` may fail at any time (the receiver may have been dropped): nothing is promised
+        #[verifier::external_body]
+        pub fn send(&self, x: X) -> (r: Result<(), SendError>) { unimplemented!() }
+    }
+    /// the non-short-circuit `|` of two booleans (R-boolor)
+    pub fn vx_bor(a: bool, b: bool) -> (r: bool) ensures r == (a || b) { a || b }
+    /// uninterpreted string (R-fmt)
+    #[verifier::external_body]
+    pub fn fmt_opaque() -> (r: String) { unimplemented!() }
+    pub struct BoxDynError;
+    /// ASSUMED here, PROVED in unit `trackers` (ChainTracker::new/step/stats): `step` succeeds iff the state has n_params entries
+    #[verifier::external_body]
+    pub struct ChainTracker { _p: u8 }
+    pub uninterp spec fn tracker_np(t: ChainTracker) -> int;
+    impl ChainTracker {
+        #[verifier::external_body]
+        pub fn new<X>(n_params: usize, initial_state: &[X]) -> (r: ChainTracker) requires initial_state@.len() == n_params ensures tracker_np(r) == n_params { unimplemented!() }
+        #[verifier::external_body]
+        pub fn step<X>(&mut self, x: &[X]) -> (r: Result<(), BoxDynError>)
+            ensures (r is Ok) == (x@.len() == tracker_np(*old(self))), tracker_np(*final(self)) == tracker_np(*old(self))
+        { unimplemented!() }
+        #[verifier::external_body]
+        pub fn stats(&self) -> ChainStats { unimplemented!() }
+    }
+
+    pub fn run_chain_progress<T, M: MarkovChain<T>>(chain: &mut M, n_collect: usize, n_discard: usize, tx: Sender<ChainStats>) -> (res: Result<Array2<T>, String>)
+        requires n_collect + n_discard <= usize::MAX
+        ensures
+            res is Ok,                                                                                                   // [C10.run_chain_progress_succeeds_whatever_the_channel_does]
+            run_post::<T, M>(*old(chain), *final(chain), a2(res->Ok_0), n_collect as int, n_discard as int),             // [C10.run_chain_progress_returns_the_draws_run_chain_returns]
+            rect2(a2(res->Ok_0), n_collect as int, old(chain).st().len() as int),
+    //@body id=run_chain_progress file=src/core.rs name=run_chain_progress props=C10
+    //@sig fn run_chain_progress < T , M > (chain : & mut M , n_collect : usize , n_discard : usize , tx : Sender < ChainStats > ,) -> Result < Array2 < T > , String > where M : MarkovChain < T > , T : LinalgScalar + PartialEq + num_traits :: ToPrimitive ,
+    //@rules R-fuse R-fmt R-boolor
+    //@closure 1 params="e: BoxDynError" ret="(r: String)"
+    //@anchor h0 scope=fn pos=before match="for i in 0 \.\. total"
+    //@| let ghost mut h: Seq<M> = seq![*chain];
+    //@loop 1 iter=it
+    //@| invariant
+    //@|     it.iter.end == total, total == n_discard + n_collect,
+    //@|     chain.st().len() == n_params, tracker_np(tracker) == n_params,
+    //@|     rect2(a2(out), n_collect as int, n_params as int),
+    //@|     hist_ok::<T, M>(h, *old(chain), *chain, i as int),
+    //@|     forall |k: int| 0 <= k < n_collect && k + n_discard < i ==> #[trigger] a2(out)[k] == h[n_discard + k + 1].st(),
+    //@anchor push scope=loop:1 pos=end
+    //@| proof { h = h.push(*chain); }
+    //@end
+
     pub trait ChainRunner<T>: HasChains<T> {
         fn run(&mut self, n_collect: usize, n_discard: usize) -> (res: Result<Array3<T>, ShapeError>)
             requires n_collect + n_discard <= usize::MAX
